@@ -303,7 +303,7 @@ def _snake(name): return re.sub(r'(?<!^)(?=[A-Z])', '_', name).upper()
 class C09(fw.Property):
     id = "C09"
     coq_props = "Props/C09.v"
-    gen_jobs = []
+    gen_jobs = ["c03_constants", "c14_message_id"]     # round 7: constants + message-ID successor tie (Proofs/C09Tie.v)
     model_imports = ["Verif.Model.C09", "Verif.Model.C09Stack"]
     quick_budget = 200
     thorough_budget = 8000
@@ -314,7 +314,7 @@ class C09(fw.Property):
     level_text = ("Theorems (closed under the global context): the decision table of final responses (default codes, renderable errors, bare 5.00, 4.04/4.05), "
                   "the once-only final event of the request's pipes for every behaviour of the rendering coroutine and every stop(), and for the stack model: "
                   "per request at most one final response in every run, exactly one for every request whose handler gets to finish, content depending on that request only.")
-    level_note = ("Hand-written model tied to the code by the correspondence run only (no translated kernel). One open finding (known_findings.d/C09.json): a returned Message that cannot be serialised (str payload) can block "
+    level_note = ("Hand-written model tied to the code by the correspondence run; only EMPTY_ACK_DELAY and the message-ID successor are tied to translated source (Proofs/C09Tie.v). One open finding (known_findings.d/C09.json): a returned Message that cannot be serialised (str payload) can block "
                   "the remote's backlog / leave the request un-ACKed (excluded from the model by the type of m_payload, exercised by the oracle-only stream 'unencodable'); "
                   "the former finding (error renderer returning a non-Message never answered) is fixed in /repo (abf5426) and modelled as fixed. Not modelled: deduplication, retransmission, block-wise, observe, handlers raising BaseException "
                   "(CancelledError), the Block1/Block2/Uri-Path-Abbrev branches in front of the handler (oracle-only stream 'options'). 'Exactly one on the wire' at run level = "
